@@ -13,6 +13,7 @@ spec/StoreCrash.tla: Store.tla + a medium with a volatile write cache; an operat
        projection; Trace_StoreCrash accepts a recovered event only if StoreCrash!RecoveredOK holds.
 """
 import json
+import re
 import vf
 
 PROPS = ["C22"]
@@ -44,41 +45,79 @@ ENTRIES = {
 def params(ck):
     # chunks, runs per chunk, ops, universe length, random subsets per crash point, and the number of
     # unsynced writes up to which every survivor subset is enumerated instead of sampled
-    return (1, 12, 12, 14, 3, 5) if ck.quick else (5, 4, 30, 24, 4, 7)
+    return (1, 10, 12, 14, 3, 5) if ck.quick else (5, 4, 30, 24, 4, 7)
 
 
-def slim(run_lines, idx):
-    """The part of a run that explains a rejected event: header descriptors, operations, and the
-    crash/recovered pair that was rejected."""
-    keep = [ln for ln in run_lines if '"name":"reset"' in ln or '"name":"hdr"' in ln or '"name":"op"' in ln]
-    ev = json.loads(run_lines[idx - 1]) if 0 < idx <= len(run_lines) else {}
-    if ev.get("name") == "recovered" and idx >= 2:
-        return keep + [run_lines[idx - 2], run_lines[idx - 1]], json.loads(run_lines[idx - 2]), ev
-    return run_lines[:idx], {}, ev
+def big_params(ck):
+    # long-chain histories (one trace each): runs, ops, chain length.  Their inserts carry 257..1025
+    # headers per call; the first operation of each is such an insert.
+    return (2, 4, 1100) if ck.quick else (6, 8, 1100)
 
 
-def validate(ck, trace, meta):
-    def on_reject(rej, run_lines, idx):
-        lines, crash, ev = slim(run_lines, idx)
-        if ev.get("name") == "recovered":
-            kind = "reopen-failed" if ev.get("ok") != 1 else "recovered-state-not-an-allowed-prefix"
-            cls = {"kind": kind, "mode": crash.get("mode"), "in_flight": crash.get("infl")}
-            if ev.get("ok") != 1:
-                cls["stage"] = ev.get("stage")
-            why = (f"crash at journal position {crash.get('p')} ({crash.get('mode')}, {crash.get('kept')} of "
-                   f"{crash.get('unsynced')} unsynced writes kept, acked={crash.get('acked')}, in flight="
-                   f"{crash.get('infl')}): " + (f"reopening failed: {ev.get('err')}" if ev.get("ok") != 1 else
-                   f"recovered stored={ev['st']['stored']} sampled={ev['st']['sampled']} pruned={ev['st']['pruned']} "
-                   "is neither the state after the acknowledged operations nor after the in-flight one, or its "
-                   "indexes disagree"))
-        else:
-            cls = {"kind": "trace-malformed", "event": ev.get("name")}
-            why = f"event {idx} of a history was not accepted: {json.dumps(ev)[:300]}"
-        run = json.loads(run_lines[0]).get("run")
-        ck.violation(cls, why, dict(meta, run=run, trace=lines, reject=rej))
-
+def validate(ck, trace, meta, tag="trace"):
+    """One TLC pass over the trace.  Trace_StoreCrash judges every crash image; images it rejects are
+    printed as <<"REJECTED", position>> and validation continues (the images are independent), so
+    one finding cannot hide another in the same history."""
     tr_cfg = ck.cfg_with("Trace_StoreCrash.cfg")
-    return ck.validate_trace_runs("Trace_StoreCrash", tr_cfg, trace, on_reject)
+    ok, rej = ck.tlc_trace("Trace_StoreCrash", tr_cfg, trace, tag=tag, timeout=2400)
+    lines = open(trace).read().splitlines()
+    starts = [i for i, ln in enumerate(lines) if '"name":"reset"' in ln]
+    out = open(f"{ck.work}/{tag}.out").read()
+    rejected = sorted({int(m) for m in re.findall(r'<<"REJECTED", (\d+)>>', out)})
+    bad_runs = set()
+
+    def run_of(n):  # n: 1-based line number
+        k = max(i for i in starts if i < n)
+        return k, json.loads(lines[k]).get("run")
+
+    if not ok:
+        # the trace itself is not of the expected shape (never the case for a recorded history)
+        at = rej.get("at", 0)
+        ev = rej.get("event") if isinstance(rej.get("event"), dict) else {}
+        k, run = run_of(max(at, 1)) if starts else (0, None)
+        bad_runs.add(run)
+        ck.violation({"kind": "trace-malformed", "event": ev.get("name")},
+                     f"event {at} of the trace was not accepted: {json.dumps(ev)[:300]}", dict(meta, run=run, reject=rej))
+    for n in rejected[:200]:
+        ev, crash = json.loads(lines[n - 1]), json.loads(lines[n - 2])
+        k, run = run_of(n)
+        if crash.get("mode") == "subset-lostlen":
+            # beyond the property's fault model (a file-size change is lost, a later write survives)
+            ck.cov["drift"] += 1
+            b = ck.cov.setdefault("beyond_fault_model", {"lost_file_size_change_images_rejected": 0, "example": None})
+            b["lost_file_size_change_images_rejected"] += 1
+            if b["example"] is None:
+                b["example"] = {"run": run, "crash": crash, "recovered": {k2: v for k2, v in ev.items() if k2 != "st"}}
+                vf.log(f"DRIFT property=C22 crash image with a lost file-size change (beyond the property's fault "
+                       f"model) does not recover: {json.dumps(b['example'])[:300]}")
+            continue
+        bad_runs.add(run)
+        kind = "reopen-failed" if ev.get("ok") != 1 else "recovered-state-not-an-allowed-prefix"
+        cls = {"kind": kind, "mode": crash.get("mode"), "in_flight": crash.get("infl"),
+               "lost_growth": crash.get("lost_growth", 0)}
+        if ev.get("ok") != 1:
+            cls["stage"] = ev.get("stage")
+        why = (f"crash at journal position {crash.get('p')} ({crash.get('mode')}, {crash.get('kept')} of "
+               f"{crash.get('unsynced')} unsynced writes kept, acked={crash.get('acked')}, in flight="
+               f"{crash.get('infl')}): " + (f"reopening failed: {ev.get('err')}" if ev.get("ok") != 1 else
+               f"recovered stored={ev['st']['stored']} sampled={ev['st']['sampled']} pruned={ev['st']['pruned']} "
+               "is neither the state after the acknowledged operations nor after the in-flight one, or its "
+               "indexes disagree"))
+        ops = [json.loads(ln) for ln in lines[k:n] if '"name":"op"' in ln]
+        hist = [{"i": o["i"], "op": o["op"], "res": o["res"], "jb": o["jb"], "je": o["je"],
+                 "stored": o["st"]["stored"], "sampled": o["st"]["sampled"], "pruned": o["st"]["pruned"]} for o in ops]
+        ck.violation(cls, why, dict(meta, run=run, history=hist, crash=crash,
+                                    recovered={k2: v for k2, v in ev.items() if k2 != "st"} | (
+                                        {"stored": ev["st"]["stored"], "sampled": ev["st"]["sampled"],
+                                         "pruned": ev["st"]["pruned"]} if ev.get("ok") == 1 else {})))
+    ck.cov["traces_validated_against_impl"] += len(starts) - len(bad_runs)
+    ck.cov["crash_images_rejected"] = ck.cov.get("crash_images_rejected", 0) + len(rejected)
+    return len(rejected)
+
+
+def common_args(m):
+    return ["--ops", m["ops"], "--len", m["len"], "--subsets", m["subsets"], "--exhaustive", m.get("exhaustive", 0),
+            "--big-ops", m.get("big_ops", 6), "--big-len", m.get("big_len", 1100)]
 
 
 def run(ck):
@@ -86,38 +125,44 @@ def run(ck):
     # 1. the design, exhaustively in the small scope; the mutants must be refuted (the invariant is not vacuous)
     over = {"MaxOps": 2, "MaxCrashes": 1} if ck.quick else {"MaxOps": 4, "MaxCrashes": 1}
     ck.tlc_mc("MC_StoreCrash", ck.cfg_with("MC_StoreCrash.cfg", over),
-              required_actions=["Begin", "Step", "Ack", "Crash"], timeout=2400)
-    for cfg in ("MC_StoreCrash_split.cfg", "MC_StoreCrash_nodur.cfg"):
+              required_actions=["BeginOp", "Step", "Ack", "Crash"], timeout=2400)
+    for cfg in ("MC_StoreCrash_split.cfg", "MC_StoreCrash_nodur.cfg", "MC_StoreCrash_chunk.cfg"):
         r = ck.tlc_mc("MC_StoreCrash", ck.cfg_with(cfg), tag="mc_" + cfg[:-4], expect_violation="CrashSafe",
                       timeout=1200)
         if not r.get("expected_violation_reproduced"):
             raise vf.ToolError(f"vacuity: CrashSafe is not refuted for the design mutant {cfg}")
     # 2. impl -> spec (in chunks, so that one TLC run validates a bounded trace)
     chunks, runs, ops, ln, subsets, exh = params(ck)
+    bruns, bops, bln = big_params(ck)
     extra = {}
-    for c in range(chunks):
-        trace = f"{ck.work}/trace{c}.ndjson"
-        s = ck.harness(hb, ["record", "storecrash", "--seed", ck.seed, "--out", trace, "--first-run", c * runs,
-                            "--runs", runs, "--ops", ops, "--len", ln, "--subsets", subsets, "--exhaustive", exh],
-                       f"record{c}",
-                       timeout=3000)
+    jobs = [("record%d" % c, ["--first-run", c * runs, "--runs", runs]) for c in range(chunks)]
+    jobs += [("big%d" % b, ["--runs", 0, "--big-first", b, "--big-runs", 1]) for b in range(bruns)]
+    meta = {"seed": ck.seed, "ops": ops, "len": ln, "subsets": subsets, "exhaustive": exh, "big_ops": bops,
+            "big_len": bln}
+    for tag, sel in jobs:
+        trace = f"{ck.work}/{tag}.ndjson"
+        s = ck.harness(hb, ["record", "storecrash", "--seed", ck.seed, "--out", trace] + sel + common_args(meta),
+                       tag, timeout=3000)
         p = s["props"].get("C22", {})
         ck.cov["evaluations"] += p.get("evaluations", 0)
         ck.cov["distinct_nontrivial"] += p.get("distinct_nontrivial", 0)
-        if c == 0:
-            ck.cov["samples"] += p.get("samples", [])[:4]
+        if tag in ("record0", "big0"):
+            ck.cov["samples"] += p.get("samples", [])[:3]
         for k in ("images_reopened", "journal_entries", "state_changing_ops", "ops", "full_syncs", "eventual_syncs",
-                  "points_with_all_subsets", "points_with_sampled_subsets", "panics"):
+                  "points_with_all_subsets", "points_with_sampled_subsets", "big_inserts_committed",
+                  "journal_entries_in_big_inserts", "panics"):
             extra[k] = extra.get(k, 0) + s["extra"].get(k, 0)
         if s["extra"].get("panics"):
             ck.violation({"kind": "panic"}, f"a store operation panicked: {s['extra'].get('last_panic')}",
-                         {"seed": ck.seed, "params": [c, runs, ops, ln, subsets]})
-        validate(ck, trace, {"seed": ck.seed, "ops": ops, "len": ln, "subsets": subsets, "exhaustive": exh})
-        if len(ck.violations) >= 20:
+                         dict(meta, job=tag))
+        validate(ck, trace, meta, tag="trace_" + tag)
+        if len(ck.violations) >= 40:
             break
     ck.cov["recorded"] = extra
     if extra["state_changing_ops"] < chunks * runs * 2 or ck.cov["distinct_nontrivial"] < 50:
         raise vf.ToolError("vacuity: the recorded histories contain too few crash points inside state-changing operations")
+    if extra["big_inserts_committed"] < bruns or extra["journal_entries_in_big_inserts"] < 100 * bruns:
+        raise vf.ToolError("vacuity: no crash points inside inserts of more than 256 headers")
     ck.level = "model_checking"
     ck.cov["rule"] = ("one evaluation = one crash image (journal boundary x {synced, all, survivor subset}) reopened and "
                       "judged by Trace_StoreCrash; non-trivial = an operation that changes the state is in flight and "
@@ -130,29 +175,25 @@ def run(ck):
 
 
 def replay(ck):
-    """Re-run the recorded history (same seed / run) on the current tree and validate it again; the
-    recorded trace itself is validated too when the history cannot be re-run."""
+    """Re-run the recorded history (same seed / run id, run ids from 1000 are the long-chain
+    histories) on the current tree and validate it again."""
     hb = ck.build("h-redb")
     d = json.load(open(ck.replay))
     done = set()
     for i, it in enumerate(d["items"]):
         c = it["case"]
-        if "run" in c and c.get("seed") is not None and "ops" in c:
-            key = (c["seed"], c["run"], c["ops"], c["len"], c["subsets"], c.get("exhaustive", 0))
-            if key in done:
-                continue
-            done.add(key)
-            trace = f"{ck.work}/replay{i}.ndjson"
-            s = ck.harness(hb, ["record", "storecrash", "--seed", c["seed"], "--out", trace, "--first-run", c["run"],
-                                "--runs", 1, "--ops", c["ops"], "--len", c["len"], "--subsets", c["subsets"],
-                                "--exhaustive", c.get("exhaustive", 0)],
-                           f"replay{i}")
-            ck.cov["evaluations"] += s["props"].get("C22", {}).get("evaluations", 0)
-            ck.cov["distinct_nontrivial"] += s["props"].get("C22", {}).get("distinct_nontrivial", 0)
-            validate(ck, trace, {k: c.get(k, 0) for k in ("seed", "ops", "len", "subsets", "exhaustive")})
-        elif "trace" in c:
-            p = f"{ck.work}/replay_trace{i}.ndjson"
-            open(p, "w").write("\n".join(c["trace"]) + "\n")
-            ok, rej = ck.tlc_trace("Trace_StoreCrash", ck.cfg_with("Trace_StoreCrash.cfg"), p, tag=f"rt{i}")
-            if not ok:
-                ck.violation(d.get("class", {"kind": "trace-reject"}), json.dumps(rej)[:300], c)
+        if c.get("run") is None or c.get("seed") is None:
+            continue
+        key = (c["seed"], c["run"])
+        if key in done:
+            continue
+        done.add(key)
+        trace = f"{ck.work}/replay{i}.ndjson"
+        sel = (["--runs", 0, "--big-first", c["run"] - 1000, "--big-runs", 1] if c["run"] >= 1000
+               else ["--first-run", c["run"], "--runs", 1])
+        s = ck.harness(hb, ["record", "storecrash", "--seed", c["seed"], "--out", trace] + sel + common_args(c),
+                       f"replay{i}")
+        ck.cov["evaluations"] += s["props"].get("C22", {}).get("evaluations", 0)
+        ck.cov["distinct_nontrivial"] += s["props"].get("C22", {}).get("distinct_nontrivial", 0)
+        validate(ck, trace, {k: c[k] for k in ("seed", "ops", "len", "subsets", "exhaustive", "big_ops", "big_len")
+                             if k in c}, tag=f"trace_replay{i}")
